@@ -83,7 +83,7 @@ func init() {
 			g.O = c04Opts(ctx.Rng, ctx.Tier)
 			g.O.Globals, g.O.IJ = true, true
 			prog := g.Bundle(1+ctx.Rng.Intn(3), 2+ctx.Rng.Intn(4))
-			files := bundleSources(prog.B, ref.Layout{Multiline: i%5 == 1, CRLF: i%7 == 3})
+			files := bundleSources(prog.B, ref.Layout{Multiline: i%5 == 1, CRLF: i%7 == 3, Attrs: i%3 == 1})
 			files = append(files, c04ProbeFile())
 			// numbers over the whole float64 range as literals and as data: their text must be the same on both sides
 			var fltData map[string]ref.Value
